@@ -1,4 +1,5 @@
 import Mouette.Model.MeshHeap
+import Mouette.Model.MeshCopy
 /-
 Vocabulary of the C06 TRANSLATED bodies (`Generated/C06Src.lean`, written by `vlib/gen/c06_translate.py` from
 `mouette/geometry/transform.py` and `mouette/mesh/mesh.py::merge` on every run). Core Lean only.
@@ -15,6 +16,8 @@ the mesh in the model's state). Meaning of the Python idioms the translator reco
   `sum(mesh.vertices)` / `len(..)`      `sumV (coordsOf s mi)` / `nVerts s mi`
   `f(g(mesh, a), b)`                    `f mi b (g mi a s)`   (both return the mesh they were given)
   `hasattr(m, "edges")` in `merge`      `hasKind`: an absent container reads as the empty list in the model
+  `copy`: every `copy_mesh.<path> = f(mesh.<path>)` (with its `hasattr` guard, per branch of `copy_attributes`) becomes one
+  `CopyField` row, in statement order; `copyByTables` gives the tables their meaning in the model (see below)
 -/
 namespace Mouette.MeshSrc
 open Mouette.MeshHeap
@@ -46,5 +49,47 @@ def hasKind (l : List (List Nat)) : Bool := !l.isEmpty
 
 /-- `[tuple((off+u for u in e)) for e in l]` -/
 def shiftBy (off : Nat) (l : List (List Nat)) : List (List Nat) := l.map (fun e => e.map (fun u => off + u))
+
+/-! ### `copy`: the statement tables (round 5) -/
+
+/-- how the right-hand side of `copy_mesh.<path> = …` is obtained from `mesh.<path>` -/
+inductive CopyHow where
+  | deep        -- `deepcopy(mesh.path)`
+  | deepMemo    -- `deepcopy(mesh.path, {id(mesh): copy_mesh})`: deep copy whose back-reference to the source is re-pointed to the copy
+  | shallow     -- `list(..)`, `copy.copy(..)`, a slice …: a new outer object sharing its items
+  | ref         -- the object itself
+  deriving DecidableEq, Repr
+
+/-- one assignment `copy_mesh.<target> = <how>(mesh.<source>)` under the guard `hasattr(mesh, "<guard>")` ("" = unguarded) -/
+structure CopyField where
+  target : String
+  source : String
+  how : CopyHow
+  guard : String
+  deriving DecidableEq, Repr
+
+def deepOf (tbl : List CopyField) (path guard : String) : Bool :=
+  tbl.any (fun f => f.target == path && f.source == path && f.how == .deep && f.guard == guard)
+
+/-- the data fields of the containers of a mesh (coordinates, element tuples, corner tables) with the guard they exist under -/
+def dataPaths : List (String × String) :=
+  [("vertices._data", ""), ("edges._data", "edges"), ("faces._data", "faces"), ("face_corners._elem", "faces"),
+   ("face_corners._adj", "faces"), ("cells._data", "cells"), ("cell_corners._elem", "cells"), ("cell_corners._adj", "cells"),
+   ("cell_faces._elem", "cells"), ("cell_faces._adj", "cells")]
+
+/-- the containers themselves (data AND attributes) -/
+def contPaths : List (String × String) :=
+  [("vertices", ""), ("edges", "edges"), ("faces", "faces"), ("face_corners", "faces"), ("cells", "cells"),
+   ("cell_corners", "cells"), ("cell_faces", "cells")]
+
+/-- MEANING of the statement tables of `copy` in the mesh model. `fresh`: the copy starts as a new empty mesh of the same class.
+When every data field is deep-copied in the data branch and every container in the attribute branch, the result is the model's
+`copyX` provided the connectivity handler goes through `deepcopy` with the re-pointing memo; a handler taken by reference is the
+pre-repair `legacyCopyX`; tables that leave a field shared / uncopied are not a copy at all (state returned unchanged). -/
+def copyByTables (fresh : Bool) (attrB dataB conn : List CopyField) (s : Mouette.MeshHeap.StateX) (i : Nat) (attrs : Bool) :
+    Mouette.MeshHeap.StateX :=
+  if fresh && dataPaths.all (fun p => deepOf dataB p.1 p.2) && contPaths.all (fun p => deepOf attrB p.1 p.2) then
+    if conn.all (fun f => f.how == .deepMemo) then Mouette.MeshHeap.copyX s i attrs else Mouette.MeshHeap.legacyCopyX s i
+  else s
 
 end Mouette.MeshSrc
